@@ -89,6 +89,13 @@ func codecValues(vg *ValueGen, md protoreflect.MessageDescriptor, nRandom int, r
 			labels = append(labels, "empty:"+string(fd.Name()))
 		}
 	}
+	// directed: the value shapes on which encoding/json's reflection parts from protojson (empty optional bytes,
+	// bool-keyed maps, non-finite floats inside lists / maps) in every singular message-typed child
+	{
+		gv, gl := ReflectGapValues(md)
+		out = append(out, gv...)
+		labels = append(labels, gl...)
+	}
 	for k := 0; k < nRandom; k++ {
 		out = append(out, vg.Random(md, 0.6))
 		labels = append(labels, fmt.Sprintf("random#%d", k))
